@@ -108,6 +108,9 @@ type Reg struct {
 	// PtrErr: the error result is declared with a concrete pointer type that implements error
 	// (func(...) (T, *ConfigError)); nil means success (synthesised constructors only)
 	PtrErr bool
+	// Locate: the constructor looks this identity up through the Scope or Provider it was injected with
+	// (a service locator: a dependency the container does not know) and reports the error it gets
+	Locate *Ident
 	// SliceErr: the error result is declared with a slice-kind type that implements error
 	// (validation errors: type FieldErrors []error); nil means success
 	SliceErr bool
@@ -226,6 +229,9 @@ func (r Reg) String() string {
 	}
 	if r.HasCtorOf {
 		fmt.Fprintf(&sb, " same-function-as=r%d", r.CtorOf)
+	}
+	if r.Locate != nil {
+		fmt.Fprintf(&sb, " (looks %s up through the Scope/Provider it is given)", *r.Locate)
 	}
 	if r.IsTwin {
 		fmt.Fprintf(&sb, " (same signature as r%d)", r.TwinOf)
